@@ -3,7 +3,10 @@
 //
 //	reg <hexname> <hexdescr>   RegisterInterface -> o | x
 //	listen                     Bind + DoListen in a goroutine (waits until running)
-//	shutdown                   Shutdown, waits for DoListen to return
+//	listen2                    Listen in a goroutine (waits until running)
+//	shutdown                   closes the client connection, Shutdown, waits for the serving call to return
+//	shutdown-keep              Shutdown while the client connection stays open: the serving call keeps draining
+//	drop                       closes the client connection after shutdown-keep and waits for the serving call to return
 //	info                       GetInfo: direct HandleMessage reply bytes, and (while listening) the client helper's fields
 //	descr <hexname>            GetInterfaceDescription likewise
 //	call <hexmethod>           a call of that method string through HandleMessage (every registered interface answers MethodNotImplemented)
@@ -77,6 +80,7 @@ func runCase(dir string, n int, line string) (res string) {
 	ctx := context.Background()
 	addr := fmt.Sprintf("unix:%s/r%d", dir, n)
 	var done chan error
+	draining := false
 	var conn *varlink.Connection
 	var out []string
 	var v, p, ver, u string
@@ -98,17 +102,22 @@ func runCase(dir string, n int, line string) (res string) {
 			} else {
 				out = append(out, "o")
 			}
-		case "listen":
+		case "listen", "listen2":
 			if done != nil {
 				out = append(out, "already")
 				continue
 			}
-			if err := svc.Bind(ctx, addr); err != nil {
-				out = append(out, "binderr")
-				continue
+			if f[0] == "listen" {
+				if err := svc.Bind(ctx, addr); err != nil {
+					out = append(out, "binderr")
+					continue
+				}
+				done = make(chan error, 1)
+				go func(d chan error) { d <- svc.DoListen(ctx, 0) }(done)
+			} else {
+				done = make(chan error, 1)
+				go func(d chan error) { d <- svc.Listen(ctx, addr, 0) }(done)
 			}
-			done = make(chan error, 1)
-			go func(d chan error) { d <- svc.DoListen(ctx, 0) }(done)
 			for t := 0; t < 3000 && !svc.VerifRunning(); t++ {
 				time.Sleep(200 * time.Microsecond)
 			}
@@ -124,11 +133,55 @@ func runCase(dir string, n int, line string) (res string) {
 				out = append(out, "notlistening")
 				continue
 			}
+			draining = false
 			if conn != nil {
 				conn.Close()
 				conn = nil
 			}
 			svc.Shutdown()
+			select {
+			case <-done:
+				out = append(out, "stopped")
+			case <-time.After(3 * time.Second):
+				out = append(out, "noreturn")
+			}
+			done = nil
+		case "shutdown-keep":
+			if done == nil || draining {
+				out = append(out, "notlistening")
+				continue
+			}
+			if conn != nil {
+				// one round trip first: the connection is accepted and being served when Shutdown arrives
+				var a, b, c, d string
+				var e []string
+				cctx, cancel := context.WithTimeout(ctx, 2*time.Second)
+				conn.GetInfo(cctx, &a, &b, &c, &d, &e)
+				cancel()
+			}
+			svc.Shutdown()
+			draining = true
+			select {
+			case <-done:
+				out = append(out, "returned-early")
+				done = nil
+			case <-time.After(30 * time.Millisecond):
+				out = append(out, "draining")
+			}
+		case "drop":
+			if !draining {
+				out = append(out, "notdraining")
+				continue
+			}
+			draining = false
+			if conn != nil {
+				conn.Close()
+				conn = nil
+			}
+			if done == nil {
+				out = append(out, "stopped")
+				continue
+			}
 			select {
 			case <-done:
 				out = append(out, "stopped")
